@@ -403,7 +403,12 @@ def c04_permutation_layouts(tier):
 
 def plan_c04(tier, seed):
     Ls = c04_layouts(tier, seed) + c04_straddle_layouts() + c04_permutation_layouts(tier)
-    us = units_from(Ls, lambda L: sum([field_harnesses(L, f, "C04", twice=True) for f in L.fields], []))
+    # the second-write harness on every structured layout and on every other random one (quick)
+    def hs(L, k=[0]):
+        k[0] += 1
+        tw = (tier != "quick") or (not L.tag.startswith("random")) or (k[0] % 2 == 0)
+        return sum([field_harnesses(L, f, "C04", twice=tw) for f in L.fields], [])
+    us = units_from(Ls, hs)
     add_controls(us, "C04", kinds=("get", "set", "get"))
     return Plan(us, title="non-contiguous gather/scatter", chunk=220 if tier == "quick" else 600,
                 bounds={"inputs": "all raw values x all field values x all indices per layout", "lists": "2..8 pairwise-disjoint items, any order; arrays of lists with K <= 10", "layouts": "documented shapes on every base where they fit + seeded random lists + arrays of lists"},
@@ -444,7 +449,7 @@ def c05_layouts(tier, seed):
     # structs mixing unsigned and signed fields of the same width, in both declaration orders, the signed
     # one below the top of the storage (generator state carried from one field to the next)
     for N in (8, 16, 32, 64):
-        for W in bases:
+        for W in (bases if tier != "quick" else [8, 16, 32, 64, 128, 24, 65, 100]):
             if W < 2 * N + 1:
                 continue
             u_ = Field("u", T_uint(N), [(W - N, N)], None, "rw")
